@@ -35,9 +35,23 @@ type StepCase struct {
 	Victim string
 	Site   string
 	Skip   int
+	// optional second victim (two preemptions): "join2" joins the session the
+	// first victim acts on (the one it leaves, for lastleave / switch), "leave2"
+	// is another member of that session that leaves; it is parked at Site2 after
+	// the first victim was parked, and released after it or (SecondFirst) before it
+	Victim2     string
+	Site2       string
+	SecondFirst bool
 }
 
 func (c StepCase) String() string {
+	if c.Victim2 != "" {
+		order := "first victim released first"
+		if c.SecondFirst {
+			order = "second victim released first"
+		}
+		return fmt.Sprintf("%s parked at pass %d of %s, then %s parked at %s, %s", c.Victim, c.Skip+1, c.Site, c.Victim2, c.Site2, order)
+	}
 	return fmt.Sprintf("%s parked at pass %d of %s", c.Victim, c.Skip+1, c.Site)
 }
 
@@ -70,6 +84,9 @@ type stepEnv struct {
 	e0, eDel uint32
 	vNP, vP  uint32 // victim's non-persistent and persistent entity
 	base     float64
+	v2       *scen.C // second victim
+	v2NP     uint32  // leave2: its non-persistent entity
+	target   string  // the session the second victim joins / leaves
 	o        *scen.C // attach victims: the owner of entity eO, which deletes it / leaves while the victim attaches to it
 	eO       uint32
 	// set by interfere
@@ -84,7 +101,7 @@ type stepEnv struct {
 
 func (en *stepEnv) all() []*scen.C {
 	out := []*scen.C{}
-	for _, c := range append([]*scen.C{en.v, en.w, en.m, en.o, en.n, en.x, en.n2, en.c1, en.c2}, en.extra...) {
+	for _, c := range append([]*scen.C{en.v, en.v2, en.w, en.m, en.o, en.n, en.x, en.n2, en.c1, en.c2}, en.extra...) {
 		if c != nil {
 			out = append(out, c)
 		}
@@ -191,6 +208,40 @@ func stepSetup(p *sut.Proc, victim string) *stepEnv {
 		must(err)
 	}
 	return en
+}
+
+// setup2 prepares the second victim.
+func (en *stepEnv) setup2(victim, victim2 string) {
+	if victim2 == "" {
+		return
+	}
+	en.target = en.sid
+	if victim == "lastleave" || victim == "switch" {
+		en.target = en.oldSID
+	}
+	en.v2 = scen.MustDial(en.p, "vod")
+	if victim2 == "leave2" {
+		jr, _, err := en.v2.Join(en.target)
+		must(err)
+		if jr == nil {
+			panic("the second victim could not join " + en.target)
+		}
+		en.v2NP, err = en.v2.AddEntity(false, 8)
+		must(err)
+	}
+	for _, c := range en.all() {
+		_, err := c.Barrier()
+		must(err)
+	}
+}
+
+func (en *stepEnv) fire2(victim2 string) {
+	switch victim2 {
+	case "join2":
+		must(en.v2.Send(&hagallpb.ParticipantJoinRequest{Type: d.TJoinReq, Timestamp: d.NewTag(), RequestId: en.v2.NextReqID(), SessionId: en.target}))
+	case "leave2":
+		en.v2.Close()
+	}
 }
 
 func (en *stepEnv) fire(victim string) {
@@ -356,7 +407,7 @@ func StepSites(p *sut.Proc, victim string) (cases []StepCase, err error) {
 			n = 6
 		}
 		for k := 0; k < n; k++ {
-			cases = append(cases, StepCase{victim, s, k})
+			cases = append(cases, StepCase{Victim: victim, Site: s, Skip: k})
 		}
 	}
 	rt(p, "op=reset")
@@ -419,6 +470,7 @@ func stateFromProbe(snap *scen.Snapshot) *model.State {
 type StepResult struct {
 	Result
 	Overlapped bool // the mutator's script completed while the victim was parked
+	Second     bool // the second victim was parked too while the first one still was
 }
 
 func sf(props []string, clause string, c StepCase, format string, a ...any) *check.Finding {
@@ -441,6 +493,7 @@ func StepRun(p *sut.Proc, c StepCase) (res *StepResult) {
 	}()
 	en := stepSetup(p, c.Victim)
 	closed := false
+	en.setup2(c.Victim, c.Victim2)
 	defer func() {
 		if !closed {
 			en.close()
@@ -459,17 +512,43 @@ func StepRun(p *sut.Proc, c StepCase) (res *StepResult) {
 		return
 	}
 	res.GateReached = true
+	site2 := strings.ReplaceAll(c.Site2, "#", "%23")
+	if c.Victim2 != "" {
+		rt(p, fmt.Sprintf("op=hold&site=%s&max=1", site2))
+		en.fire2(c.Victim2)
+		if _, err := p.RT(fmt.Sprintf("op=wait&site=%s&n=1&ms=400", site2)); err == nil {
+			res.Second = true
+		}
+	}
+	release := func() {
+		if c.Victim2 == "" {
+			rt(p, "op=release&site="+site)
+			return
+		}
+		if c.SecondFirst {
+			rt(p, "op=release&site="+site2)
+			time.Sleep(20 * time.Millisecond)
+			rt(p, "op=release&site="+site)
+			return
+		}
+		rt(p, "op=release&site="+site)
+		// the second victim may only now get to its point (it was waiting for a
+		// lock the first one held): let it park there, then let it go
+		p.RT(fmt.Sprintf("op=wait&site=%s&n=1&ms=40", site2))
+		time.Sleep(20 * time.Millisecond)
+		rt(p, "op=release&site="+site2)
+	}
 	done := make(chan error, 1)
 	go func() { done <- en.interfere(c.Victim) }()
 	var ierr error
 	select {
 	case ierr = <-done:
 		res.Overlapped = true
-		rt(p, "op=release&site="+site)
+		release()
 	case <-time.After(250 * time.Millisecond):
 		// the victim is parked inside a critical section the others need: they
 		// serialise behind it
-		rt(p, "op=release&site="+site)
+		release()
 		ierr = <-done
 	}
 	if ierr != nil {
@@ -496,6 +575,13 @@ func StepRun(p *sut.Proc, c StepCase) (res *StepResult) {
 		gone[en.x] = true
 	case "compadd-vs-leave", "action-vs-leave":
 		gone[en.o] = true
+	}
+	if c.Victim2 == "leave2" {
+		gone[en.v2] = true
+		if ok, _ := scen.Departed(p, en.v2, 8*time.Second); !ok {
+			res.Findings = append(res.Findings, wedgeOrInconclusive(p, c, "the second departing connection's handler never returned after the release"))
+			return
+		}
 	}
 	barrierAll := func() {
 		for _, cl := range en.all() {
@@ -529,6 +615,24 @@ func StepRun(p *sut.Proc, c StepCase) (res *StepResult) {
 			return
 		}
 	}
+	if c.Victim2 == "join2" {
+		ok, refused := 0, 0
+		for _, e := range en.v2.LogCopy() {
+			switch x := e.M.(type) {
+			case *hagallpb.ParticipantJoinResponse:
+				en.v2.PID, en.v2.SID, en.v2.UUID = x.ParticipantId, x.SessionId, x.SessionUuid
+				ok++
+			case *hagallpb.ErrorResponse:
+				if x.RequestId != 0 {
+					refused++
+				}
+			}
+		}
+		if ok+refused != 1 {
+			res.Findings = append(res.Findings, sf([]string{"C04", "C02"}, "step/answer-exactly-once", c, "the second victim's join got %d success and %d error answers; its stream: %v", ok, refused, en.v2.LogCopy()))
+			return
+		}
+	}
 	// --- C07 / C10: every connection that was answered with a successful join
 	// and is still open is in a live session that can be found under its id
 	type claim struct {
@@ -536,7 +640,7 @@ func StepRun(p *sut.Proc, c StepCase) (res *StepResult) {
 		c   *scen.C
 	}
 	var claims []claim
-	for _, cl := range []claim{{"the mutator", m}, {"the witness", w}, {"the victim", v}, {"the newcomer", en.n}, {"the joiner of the victim's old session", en.n2}, {"a creator", en.c1}, {"a second creator", en.c2}} {
+	for _, cl := range []claim{{"the mutator", m}, {"the witness", w}, {"the victim", v}, {"the second victim", en.v2}, {"the newcomer", en.n}, {"the joiner of the victim's old session", en.n2}, {"a creator", en.c1}, {"a second creator", en.c2}} {
 		if cl.c != nil && !gone[cl.c] && cl.c.SID != "" {
 			claims = append(claims, cl)
 		}
@@ -584,7 +688,7 @@ func StepRun(p *sut.Proc, c StepCase) (res *StepResult) {
 		return
 	}
 	barrierAll()
-	if (c.Victim == "switch" || c.Victim == "lastleave") && !en.n2ok {
+	if (c.Victim == "switch" || c.Victim == "lastleave") && !en.n2ok && !(c.Victim2 == "join2" && en.v2.SID == en.oldSID && en.v2.UUID == en.oldUUID) {
 		// nobody is left in the victim's old session: it must have ended
 		old, err := scen.Probe(p, en.oldSID, "vod")
 		must(err)
@@ -727,6 +831,14 @@ func (en *stepEnv) judgeSession(c StepCase, res *StepResult, snap *scen.Snapshot
 	if c.Victim == "join" {
 		departedChecks("the member that left while the victim was parked", en.x, 0, 0)
 	}
+	if c.Victim2 == "leave2" && en.target == en.sid {
+		departedChecks("the second victim (a member that left)", en.v2, en.v2NP, 0)
+	}
+	if c.Victim2 == "join2" && en.v2.SID == en.sid {
+		if k := fmt.Sprint("join ", en.v2.PID); wn[k] != 1 {
+			res.Findings = append(res.Findings, sf([]string{"C02", "C01"}, "relay/join-not-exactly-once", c, "the witness received %d join relays for the second victim (participant %d)", wn[k], en.v2.PID))
+		}
+	}
 	if strings.HasSuffix(c.Victim, "-vs-leave") {
 		departedChecks("the owner that left while the victim was attaching to its entity", en.o, en.eO, 0)
 	}
@@ -768,6 +880,13 @@ func (en *stepEnv) judgeSession(c StepCase, res *StepResult, snap *scen.Snapshot
 			c   *scen.C
 			sub []uint32
 		}{"the victim", v, nil})
+	}
+	if c.Victim2 == "join2" && en.v2.SID == en.sid {
+		views = append(views, struct {
+			who string
+			c   *scen.C
+			sub []uint32
+		}{"the second victim", en.v2, nil})
 	}
 	for _, vw := range views {
 		vv := foldLog(vw.c, vw.sub...)
